@@ -290,6 +290,29 @@ fn gen_data(rng: &mut Rng, nsym: usize, shape: &str, total: usize, alphabet: &[u
 
 /// a VALID distribution for accuracy log `al` over at most `nsym` symbols: positive counts and
 /// `-1` entries summing (with `-1` as 1) to `2^al`, zero runs in between
+/// valid distribution with a LARGE "less than one" zone (a third of the table up to all but one cell, capped by the
+/// 256-symbol alphabet): the spreading walk has to skip occupied top cells several times in a row
+fn gen_valid_probs_many_neg(rng: &mut Rng, al: u8) -> Vec<i32> {
+    let size = 1usize << al;
+    let m_hi = (size - 1).min(250);
+    let m_lo = (size / 3).min(m_hi);
+    let m = rng.range(m_lo as u64, m_hi as u64) as usize;
+    let free = size - m;
+    let pos = rng.range(1, (free.min(5)) as u64) as usize;
+    let mut parts = vec![1usize; pos];
+    let mut rest = free - pos;
+    while rest > 0 {
+        let i = rng.below(pos as u64) as usize;
+        let give = rng.range(1, rest as u64) as usize;
+        parts[i] += give;
+        rest -= give;
+    }
+    let mut entries: Vec<i32> = parts.iter().map(|p| *p as i32).collect();
+    entries.extend(std::iter::repeat(-1).take(m));
+    shuffle(rng, &mut entries);
+    entries
+}
+
 fn gen_valid_probs(rng: &mut Rng, al: u8, nsym: usize) -> Vec<i32> {
     let size = 1usize << al;
     let nsym = nsym.max(1);
@@ -523,6 +546,12 @@ fn fromprobs_case(run: &mut Run, al: u8, probs: &[i32], valid: bool) {
         }
     }
     run.case(line, format!("ok {} | {}", e_tok, d_tok));
+    // for a valid distribution the format allows: the real decoder's table against the table the RFC transcription
+    // builds (model side of this line = `Spec.Fse.buildTable`, an oracle, not the mirror of the code)
+    if valid && (5..=9).contains(&al) && d_tok.starts_with('D') {
+        run.case(format!("fse specprobs {} {}", al, show_ints(probs)), format!("ok {}", d_tok));
+        run.stat("specprobs_cases", 1);
+    }
 }
 
 fn next_case(run: &mut Run, al: u8, probs: &[i32], sym: u8, idx: usize, expect_ok: bool) {
@@ -937,6 +966,8 @@ pub fn replay_line(run: &mut Run, rng: &mut Rng, line: &str) -> Option<()> {
             build_case(run, &parse_list::<usize>(cs)?, ml.parse().ok()?, *av != "0", false, tok[1] == "norm");
         }
         ("fromprobs", [al, ps]) => fromprobs_case(run, al.parse().ok()?, &parse_list::<i32>(ps)?, false),
+        // an oracle line is replayed as the `fromprobs` case it came from, with the validity oracles on
+        ("specprobs", [al, ps]) => fromprobs_case(run, al.parse().ok()?, &parse_list::<i32>(ps)?, true),
         ("next", [al, ps, sym, idx]) => next_case(run, al.parse().ok()?, &parse_list::<i32>(ps)?, sym.parse().ok()?, idx.parse().ok()?, false),
         ("dec", [ms, ml, h]) => dec_case(run, ms.parse().ok()?, ml.parse().ok()?, &unhex(h)?, "replay", false),
         ("dec1", [ml, n, h]) => {
@@ -1121,6 +1152,13 @@ pub fn run(opts: &Opts) -> Run {
         if i % 3 == 0 {
             dists.push((al, probs));
         }
+    }
+    // valid distributions with a large "less than one" zone (the `while position >= negative_idx` loop runs long)
+    for i in 0..(600 * scale) {
+        let al = (5 + i % 5) as u8;
+        let probs = gen_valid_probs_many_neg(&mut rng, al);
+        fromprobs_case(&mut run, al, &probs, true);
+        run.stat("fromprobs_many_minus_one", 1);
     }
     // a few valid ones for al 10..=12 and al 1..=4 (outside what the format allows, inside what the code accepts)
     for i in 0..(60 * scale) {
